@@ -36,10 +36,10 @@ NewLink == [ech |-> -1, pch |-> -1, eh |-> -1, ph |-> -1, name |-> "", eutSender
             eAtt |-> FALSE, pAtt |-> FALSE, eDet |-> FALSE, pDet |-> FALSE, pClosed |-> FALSE, pDetErr |-> "", touched |-> FALSE, pDetFirst |-> FALSE, errTold |-> FALSE,
             snd |-> 2, rcv |-> 0, mmsP |-> -1,
             \* sender role (EUT sends)
-            idc |-> 0, dcS |-> 0, limit |-> -1, drainOwed |-> FALSE, echoOwed |-> FALSE, inDel |-> FALSE, curDid |-> -1,
+            idc |-> 0, dcS |-> 0, fBase |-> 0, fN |-> 0, fWired |-> 0, fSends |-> 0, owed |-> 0, limit |-> -1, drainOwed |-> FALSE, echoOwed |-> FALSE, inDel |-> FALSE, curDid |-> -1,
             sendsIssued |-> 0, delsDone |-> 0, blockedBy |-> "none", lastM |-> -1, cancels |-> 0,
             \* receiver role (EUT receives)
-            dcR |-> 0, dcGot |-> 0, lcR |-> 0, limitR |-> 0, limitMax |-> 0, idcP |-> 0, accepted |-> 0, broken |-> FALSE, aborts |-> 0, cfgActive |-> FALSE, creditMode |-> -2, autoAcc |-> FALSE, expectLc |-> -1, appLc |-> -1, sflowGap |-> FALSE, dispN |-> 1, held |-> 0, pInDel |-> FALSE,
+            dcR |-> 0, dcGot |-> 0, lcR |-> 0, limitR |-> 0, limitMax |-> 0, idcP |-> 0, accepted |-> 0, broken |-> FALSE, aborts |-> 0, cfgActive |-> FALSE, creditMode |-> -2, autoAcc |-> FALSE, expectLc |-> -1, appLc |-> -1, sflowGap |-> FALSE, dispN |-> 1, held |-> 0, pInDel |-> FALSE, appDrained |-> FALSE,
             inq |-> <<>>,          \* incoming deliveries not yet handed to the application
             got |-> <<>>,          \* deliveries handed to the application: [did, m, app (state chosen by the application or "none"), presettled]
             \* settlement
@@ -147,7 +147,7 @@ H_EAttach(s, r, l) ==
            y == [base EXCEPT !.ech = r.ch, !.eh = f.h, !.name = f.name, !.eutSender = eutSender, !.eAtt = TRUE,
                              !.creditMode = IF ~eutSender /\ ci > 0 THEN s.pendCfg[ci].credit ELSE @,
                              !.autoAcc = IF ~eutSender /\ ci > 0 THEN s.pendCfg[ci].autoAcc ELSE @,
-                             !.idc = IF eutSender /\ f.idc >= 0 THEN f.idc ELSE @, !.dcS = IF eutSender /\ f.idc >= 0 THEN f.idc ELSE @,
+                             !.idc = IF eutSender /\ f.idc >= 0 THEN f.idc ELSE @, !.dcS = IF eutSender /\ f.idc >= 0 THEN f.idc ELSE @, !.fBase = IF eutSender /\ f.idc >= 0 THEN f.idc ELSE @,
                              !.snd = IF ans > 0 THEN @ ELSE f.snd, !.rcv = IF ans > 0 THEN @ ELSE f.rcv]
        IN R([s EXCEPT !.ls = IF ans > 0 THEN [s.ls EXCEPT ![ans] = y] ELSE Append(s.ls, y)],
               Chk("C11_HandleUnique", ~dupH, l, "") + Chk("C11_NameOnce", ~dupN, l, f.name)
@@ -183,6 +183,7 @@ H_ETransfer(s, r, l) ==
                       !.devWin = IF unit THEN Max(0, @ - 1) ELSE @]
       qi == IF first THEN FirstIdx(y.sendq, LAMBDA q : q.m = r.pl.m /\ q.did = -1) ELSE 0
       y2 == [y EXCEPT !.inDel = f.more, !.curDid = IF first THEN f.did ELSE @, !.dcS = IF first THEN @ + 1 ELSE @,
+                      !.fWired = IF first THEN @ + 1 ELSE @, !.owed = IF first THEN Max(0, @ - 1) ELSE @,
                       !.delsDone = IF f.more THEN @ ELSE @ + 1, !.lastM = IF first THEN r.pl.m ELSE @,
                       !.sendq = IF qi > 0 THEN [@ EXCEPT ![qi].did = f.did, ![qi].presettled = (f.settled = "t")] ELSE @]
   IN R(SetL(SetS(s, i, x2), k, y2),
@@ -191,7 +192,9 @@ H_ETransfer(s, r, l) ==
        + Chk("C11_ContinuationId", first \/ f.did = -1 \/ f.did = y.curDid, l, "")
        + Chk(IF y.cancels > 0 THEN "C16_NeverPartial" ELSE "C11_DeliveryAbandoned", ~abandoned, l, IF y.cancels > 0 /\ s.roomy THEN "roomy" ELSE "")
        + Chk("C08_SenderRole", y.eutSender, l, "")
-       + Chk("C08_WithinCredit", ~first \/ (y.limit >= 0 /\ y.dcS < y.limit), l, "")
+       \* (a delivery that had credit while it was waiting inside the endpoint -- for the session window or a full channel -- has taken
+       \*  that credit; a later flow that lowers the limit does not call it back, exactly as for a transfer in flight)
+       + Chk("C08_WithinCredit", ~first \/ (y.limit >= 0 /\ (y.dcS < y.limit \/ y.owed > 0)), l, "")
        + Chk("C01_PayloadContinuity", r.pl.ok, l, "")
        \* deliveries leave in the order the application submitted them, none twice (message numbers grow per link)
        + Chk("C07_Fifo", r.pl.ok /\ (~first \/ r.pl.m > y.lastM), l, "")
@@ -209,9 +212,17 @@ H_EFlow(s, r, l) ==
   LET y == s.ls[k] IN
   IF y.eutSender
   THEN LET \* drain: the sender advances its delivery-count to the limit (if it is not already there or beyond) and shows zero credit
-           drained == y.drainOwed /\ f.lc = 0 /\ f.dc = Max(y.dcS, y.limit)
-           y2 == [y EXCEPT !.drainOwed = IF drained THEN FALSE ELSE @, !.dcS = IF drained THEN Max(y.dcS, y.limit) ELSE @, !.echoOwed = FALSE]
-       IN R(SetL(s, k, y2), fs + Chk("C08_OnePerDelivery", f.dc = y.dcS \/ drained, l, ""))
+           \* The delivery-count a sender states: one per delivery, however many frames carry it.  A delivery takes its credit when the
+           \* link hands it over, which may be before its first frame is on the wire (it may wait for the session window), so between two
+           \* flows the count has grown by at least the deliveries started on the wire beyond those that were already waiting at the
+           \* earlier flow, and by at most those waiting then plus those submitted since.
+           notStarted == Cardinality({n \in DOMAIN y.sendq : y.sendq[n].did = -1})
+           lo == y.fBase + Max(0, y.fWired - y.fN)
+           hi == y.fBase + y.fN + y.fSends
+           drained == y.drainOwed /\ f.lc = 0 /\ f.dc >= y.limit /\ f.dc >= lo /\ (f.dc = y.limit \/ f.dc <= hi)
+           y2 == [y EXCEPT !.drainOwed = IF drained THEN FALSE ELSE @, !.dcS = IF drained THEN Max(y.dcS, y.limit) ELSE @, !.echoOwed = FALSE,
+                           !.fBase = f.dc, !.fN = notStarted, !.fWired = 0, !.fSends = 0]
+       IN R(SetL(s, k, y2), fs + Chk("C08_OnePerDelivery", (f.dc >= lo /\ f.dc <= hi) \/ drained, l, ""))
   ELSE \* the delivery-count a receiver reports is the sender's count as learnt, advanced by the deliveries it has taken in:
        \* at least those already handed to the application, at most those that have arrived (a link endpoint
        \* processes arrivals when the application drives it)
@@ -342,7 +353,9 @@ H_PFlow(s, r, l) ==
   IF k = 0 \/ s.ls[k].pDet THEN R(IllegalW(s2, "flow-unattached"), 0) ELSE
   LET y == s.ls[k] IN
   IF y.eutSender
-  THEN R(SetL(s2, k, [y EXCEPT !.limit = (IF f.dc >= 0 THEN f.dc ELSE y.idc) + Max(f.lc, 0), !.drainOwed = f.drain, !.echoOwed = (@ \/ f.echo)]), 0)
+  THEN LET lim == (IF f.dc >= 0 THEN f.dc ELSE y.idc) + Max(f.lc, 0) IN
+       R(SetL(s2, k, [y EXCEPT !.limit = lim, !.drainOwed = f.drain, !.echoOwed = (@ \/ f.echo),
+                                !.owed = Max(@, Min(Cardinality({n \in DOMAIN y.sendq : y.sendq[n].did = -1}), Max(0, lim - y.dcS)))]), 0)
   \* the sender states its delivery-count: everything it has sent has arrived (dcR); deliveries that have arrived but have not been
   \* handed to the application yet stay that many behind (dcGot).  sflowGap remembers that such a flow overtook queued deliveries.
   ELSE R(SetL(s2, k, [y EXCEPT !.dcR = IF f.dc >= 0 THEN f.dc ELSE @, !.dcGot = IF f.dc >= 0 THEN f.dc - (y.dcR - y.dcGot) ELSE @,
@@ -409,7 +422,9 @@ H_ApiCall(s, r, l) ==
                                                                                                  autoAcc |-> IF "auto_accept" \in DOMAIN r.args THEN r.args.auto_accept ELSE FALSE])], 0)
   ELSE IF r.op \in {"send", "send_batchable"} THEN
        LET k == LinkByName(s, r.lname, TRUE) IN
-       IF k = 0 THEN R(s, 0) ELSE R(SetL(s, k, [s.ls[k] EXCEPT !.sendsIssued = @ + 1, !.touched = TRUE,
+       IF k = 0 THEN R(s, 0) ELSE R(SetL(s, k, [s.ls[k] EXCEPT !.sendsIssued = @ + 1, !.touched = TRUE, !.fSends = @ + 1,
+                                                \* owed: how many of the waiting deliveries have had credit at the same time (they have taken it)
+                                                !.owed = Max(@, Min(1 + Cardinality({n \in DOMAIN s.ls[k].sendq : s.ls[k].sendq[n].did = -1}), IF s.ls[k].limit >= 0 THEN Max(0, s.ls[k].limit - s.ls[k].dcS) ELSE 0)),
                                                 !.sendq = Append(@, [call |-> r.call, m |-> r.args.m, did |-> -1, presettled |-> (s.ls[k].snd = 1 \/ (s.ls[k].snd = 2 /\ r.args.settled = "t")), outcome |-> "none", done |-> FALSE, ret |-> FALSE])]), 0)
   ELSE IF r.op = "dispose" THEN
        LET k == LinkByName(s, r.lname, FALSE)
@@ -419,7 +434,11 @@ H_ApiCall(s, r, l) ==
                             !.got = [n \in DOMAIN @ |-> IF \E j \in DOMAIN r.args.dids : r.args.dids[j] = @[n].did THEN [@[n] EXCEPT !.app = st] ELSE @[n]]]), 0)
   ELSE IF r.op = "set_credit" THEN
        LET k == LinkByName(s, r.lname, FALSE) IN
-       IF k = 0 THEN R(s, 0) ELSE R(SetL(s, k, [s.ls[k] EXCEPT !.expectLc = r.args.n, !.appLc = r.args.n, !.touched = TRUE]), 0)
+       IF k = 0 THEN R(s, 0) ELSE R(SetL(s, k, [s.ls[k] EXCEPT !.expectLc = r.args.n, !.appLc = r.args.n, !.touched = TRUE, !.appDrained = FALSE]), 0)
+  \* the application drains the link: by the documented contract of drain() the link stays drained until the application sets credit again
+  ELSE IF r.op = "drain" THEN
+       LET k == LinkByName(s, r.lname, FALSE) IN
+       IF k = 0 THEN R(s, 0) ELSE R(SetL(s, k, [s.ls[k] EXCEPT !.touched = TRUE, !.appDrained = TRUE]), 0)
   ELSE IF r.scope # "" /\ r.lname # "" /\ r.op # "await_outcome" THEN
        \* any operation on a link counts as the application touching it
        LET k == LastIdx(s.ls, LAMBDA y : y.name = r.lname /\ y.eAtt) IN
@@ -604,7 +623,7 @@ H_Quiesce(s, r, l) ==
        + Chk("C09_Replenished_Q", \A k \in DOMAIN s.ls : ~(ConnUp(s) /\ ~s.ls[k].eutSender /\ s.ls[k].creditMode > 0 /\ LinkLiveE(s.ls[k]) /\ s.ls[k].pAtt /\ ~s.ls[k].pDet
                                                             /\ s.ls[k].held = 0 /\ s.ls[k].inq = <<>> /\ ~s.ls[k].pInDel /\ ~s.ls[k].broken
                                                             /\ SessByE(s, s.ls[k].ech) > 0 /\ LiveE(s.ss[SessByE(s, s.ls[k].ech)]) /\ ~s.ss[SessByE(s, s.ls[k].ech)].pEnded
-                                                            /\ s.ls[k].cfgActive /\ s.ls[k].limitR - s.ls[k].dcR <= 0), l,
+                                                            /\ s.ls[k].cfgActive /\ ~s.ls[k].appDrained /\ s.ls[k].limitR - s.ls[k].dcR <= 0), l,
              IF \E k \in DOMAIN s.ls : s.ls[k].aborts > 0 THEN "after_abort" ELSE "")
        + fStuck)
 
